@@ -676,14 +676,12 @@ impl BinArchive {
     }
 
     pub fn find_label_address(&self, target: &str) -> Option<usize> {
-        for (address, bucket) in &self.labels {
-            for label in bucket {
-                if label == target {
-                    return Some(*address);
-                }
-            }
-        }
-        None
+        // The lowest address wins when several addresses carry the label (the map's iteration order is arbitrary).
+        self.labels
+            .iter()
+            .filter(|(_, bucket)| bucket.iter().any(|label| label == target))
+            .map(|(address, _)| *address)
+            .min()
     }
 
     pub fn pointer_destinations(&self) -> HashSet<usize> {
